@@ -715,14 +715,17 @@ int main(int argc, char** argv) {
                                 .set("runtime_error_injected", Json((unsigned long long)R.counters["fault.error_injected"]))
                                 .set("join_through_simulated_timeout", Json((unsigned long long)R.counters["gc.join_timeouts"]))
                                 .set("clock_jump_configured", Json((unsigned long long)R.counters["fault.clock_jump_configured"]))
-                                .set("stalled_timer_configured", Json((unsigned long long)R.counters["fault.stall_configured"])));
+                                .set("stalled_timer_configured", Json((unsigned long long)R.counters["fault.stall_configured"]))
+                                .set("timer_thread_parked_mid_slice_after_an_atomic_operation", Json((unsigned long long)R.counters["gc.timer_parked_mid_slice"]))
+                                .set("stop_notified_while_timer_not_waiting", Json((unsigned long long)R.counters["gc.notify_while_timer_mid_slice"])));
     cov.set("components", Json::object()
                               .set("real", Json::arrayOf(std::vector<std::string>{"lexer", "parser", "semantic analyser", "RuntimeEvaluator (interpreter, collector, teardown)", "GC timer thread (real std::thread, real loop, real deadline arithmetic)", "QasmSimulator"}))
-                              .set("stub", Json::arrayOf(std::vector<std::string>{"steady clock (simulated)", "pthread_cond_clockwait / notify_all / join (scheduler-controlled hand-over)"})));
+                              .set("stub", Json::arrayOf(std::vector<std::string>{"steady clock (simulated)", "pthread_cond_clockwait / notify_all / join (scheduler-controlled hand-over)", "ThreadSanitizer flavour only: __tsan_atomic* and pthread_mutex_lock pass through a wrapper that may park the timer thread after the operation"})));
     cov.set("known_findings_hit", Json((unsigned long long)S.knownHits));
     cov.set("violation_details", S.details);
     ev.set("assumptions", Json::arrayOf(std::vector<std::string>{
                               "the interpreter observes the timer only through m_gcRequested at statement boundaries, so delivering a tick at yield k is equivalent to the timer firing anywhere between yields k-1 and k",
+                              "mid-slice pre-emption of the timer thread exists only in the ThreadSanitizer flavour (atomics are runtime calls there); between two of its atomic operations the timer thread is one step",
                               "generated programs are deterministic (no quantum operations), so any difference from the collector-never baseline is caused by collection",
                               "a clean batch is evidence, not proof: the schedule space is sampled"}));
     sim::writeEvidence(opt, ev);
